@@ -84,4 +84,17 @@ def reconModel {p d : Nat} (A : Mat GF256 p d) (blocks : Array ByteArray) (size 
   | .error .singular => .error 2
   | .ok out => .ok (Array.ofFn fun i : Fin (d + p) => match out i with | some s => bytesOfShard s | none => ByteArray.empty)
 
+def pt (n : Nat) : GF256 := GF256.ofNat n
+
+/-- L0 closed form of the default generator: Lagrange basis over nodes `0..d-1` at `d+r` -/
+def lagrangeParity (d p : Nat) : Mat GF256 p d :=
+  -- 1 / ∏_{j≠c} (y_c - y_j), once per column
+  let invDen : Array GF256 := Array.ofFn fun c : Fin d =>
+    ((List.range d).foldl (fun acc j => if j = c.val then acc else acc * (pt c.val - pt j)) 1)⁻¹
+  Mat.ofFn fun r c =>
+    let xr := pt (d + r.val)
+    let num := (List.range d).foldl (fun acc j => if j = c.val then acc else acc * (xr - pt j)) 1
+    num * invDen[c.val]!
+
+
 end Drv
